@@ -5,7 +5,7 @@ import EinoV.Expected.C14
 namespace EinoV.Oracle.C14
 open Lean EinoV EinoV.C14
 
-/-- null | {"t":ty,"v":payload} | {"m":[[key,val],…]} -/
+/-- null | {"t":ty,"v":payload} | {"m":[[key,val],…],"e":elemType}   ("e" absent = "any") -/
 partial def parseX (j : Json) : JE XVal := do
   match j with
   | .null => pure .nil
@@ -16,19 +16,19 @@ partial def parseX (j : Json) : JE XVal := do
         match p with
         | .arr #[.str k, v] => do pure (k, ← parseX v)
         | _ => throw "bad kv")
-      pure (.map kvs)
+      pure (.map (J.strD j "e" "any") kvs)
     | _ => pure (.sc (← J.str j "t") (← J.str j "v"))
 
 def parseKVs (j : Json) : JE KVs := do
   match (← parseX j) with
-  | .map kvs => pure kvs
+  | .map _ kvs => pure kvs
   | .nil => pure []
   | _ => throw "extra: not a map"
 
 partial def renderX : XVal → Json
   | .nil => .null
   | .sc t v => Json.mkObj [("t", .str t), ("v", .str v)]
-  | .map kvs => Json.mkObj [("m", Json.mkObj (kvs.map (fun p => (p.1, renderX p.2))))]
+  | .map et kvs => Json.mkObj [("m", Json.mkObj (kvs.map (fun p => (p.1, renderX p.2)))), ("e", .str et)]
 
 def parseTC (j : Json) : JE TC := do
   let idx : Option Int := match j.getObjVal? "idx" with
@@ -77,7 +77,7 @@ def renderMsg : Option Msg → Json
   | none => .null
   | some m => Json.mkObj [("role", .str m.role), ("name", .str m.name), ("tcid", .str m.toolCallID),
       ("content", .str m.content), ("multi", J.mkNats m.multi), ("tcs", J.mkArr (m.toolCalls.map renderTC)),
-      ("meta", renderMeta m.rmeta), ("extra", renderX (.map m.extra))]
+      ("meta", renderMeta m.rmeta), ("extra", renderX (.map "any" m.extra))]
 
 def renderRes {α} (f : α → Json) : Except Err α → Json
   | .ok v => Json.mkObj [("ok", f v)]
@@ -90,12 +90,16 @@ def fuelOf (l : List KVs) : Nat := (l.map depthKVs).foldl max 0 + 2
 def extrasOf (cs : List (Option Msg)) : List KVs :=
   cs.filterMap (fun c => c.map (·.extra))
 
-/-- case: {"kind":"msgs"|"cmsgs"|"maps"|"strs"|"marr","chunks":[…],"guard":bool?}
+/-- case: {"kind":"msgs"|"cmsgs"|"maps"|"strs"|"marr"|"anys","chunks":[…],"et":elemType?,"guard":bool?,…}
     msgs  = schema.ConcatMessages(chunks)
-    cmsgs / maps / strs = compose-level stream concat of *Message / map[string]any / string -/
+    cmsgs / maps / strs / anys = compose-level stream concat of *Message / map[string]<et> / string / any -/
 def handle (c : Json) : JE Json := do
   let chunks ← J.arr c "chunks"
-  let cfg : Cfg := { Expected.C14.cfg with nilAbsent := J.boolD c "guard" Expected.C14.cfg.nilAbsent }
+  let cfg : Cfg := { Expected.C14.cfg with
+    nilAbsent := J.boolD c "guard" Expected.C14.cfg.nilAbsent
+    guardKindFirst := J.boolD c "kindFirst" Expected.C14.cfg.guardKindFirst
+    recurseByKind := J.boolD c "byKind" Expected.C14.cfg.recurseByKind
+    nilResultGuard := J.boolD c "nilRes" Expected.C14.cfg.nilResultGuard }
   match (← J.str c "kind") with
   | "msgs" => do
     let cs ← chunks.mapM parseMsg
@@ -105,7 +109,11 @@ def handle (c : Json) : JE Json := do
     pure (renderRes renderMsg (concatMsgChunks cfg (fuelOf (extrasOf cs)) cs))
   | "maps" => do
     let ms ← chunks.mapM parseKVs
-    pure (renderRes (fun m => renderX (.map m)) (concatMapChunks cfg (fuelOf ms) ms))
+    let et := J.strD c "et" "any"
+    pure (renderRes (fun m => renderX (.map et m)) (concatMapChunks cfg (fuelOf ms) et ms))
+  | "anys" => do
+    let xs ← chunks.mapM parseX
+    pure (renderRes renderX (concatAnyChunks cfg xs))
   | "marr" => do
     let arrs ← chunks.mapM (fun a => do (← J.asArr a).mapM parseMsg)
     pure (renderRes (fun r => J.mkArr (r.map renderMsg)) (concatArrChunks cfg (fuelOf (extrasOf arrs.flatten)) arrs))
